@@ -3,7 +3,7 @@
    over the COST table regenerated from the Rust sources (Gen/OpcodeCost.v), model C = Promise.v. *)
 From Coq Require Import List Arith Lia Bool String.
 Import ListNotations.
-From C16 Require Import Model_C16 Proofs_Jobs Proofs_Budget Proofs_C16.
+From C16 Require Import Model_C16 Proofs_Jobs Proofs_Loop Proofs_Budget Proofs_C16.
 From Gen Require Import OpcodeCost.
 
 (* ================= model A: the job queue ================= *)
@@ -161,6 +161,29 @@ Check loop_is_batched : forall (world job err : Type) (now : world -> nat)
   lproj world job err (run_loop world job err now execk (S n) s) = drain_batched world job err exec n (proj world job s).
 Print Assumptions loop_is_batched.
 
+(* the loop with a poll counter (LoopCase.run_loop_n, the function the correspondence executes against
+   SimpleJobExecutor::run_jobs_async) is run_loop; its counter is the number of iterations started: at most the
+   fuel, exactly the fuel when the run is still Pending; and a run that returned keeps its result and count for
+   every larger poll limit *)
+Theorem loop_counter : forall (world job err : Type) (now : world -> nat)
+    (execk : job -> world -> world * list (kind * job) * option err) (fuel : nat) (s : lstate world job) (k : nat),
+  fst (run_loop_n world job err now execk fuel s k) = run_loop world job err now execk fuel s /\
+  k <= snd (run_loop_n world job err now execk fuel s k) <= k + fuel /\
+  match run_loop world job err now execk fuel s with
+  | LOutOfFuel _ => snd (run_loop_n world job err now execk fuel s k) = k + fuel
+  | _ => forall extra, run_loop_n world job err now execk (fuel + extra) s k = run_loop_n world job err now execk fuel s k
+  end.
+Proof. exact loop_counter_lemma. Qed.
+Check loop_counter : forall (world job err : Type) (now : world -> nat)
+    (execk : job -> world -> world * list (kind * job) * option err) (fuel : nat) (s : lstate world job) (k : nat),
+  fst (run_loop_n world job err now execk fuel s k) = run_loop world job err now execk fuel s /\
+  k <= snd (run_loop_n world job err now execk fuel s k) <= k + fuel /\
+  match run_loop world job err now execk fuel s with
+  | LOutOfFuel _ => snd (run_loop_n world job err now execk fuel s k) = k + fuel
+  | _ => forall extra, run_loop_n world job err now execk (fuel + extra) s k = run_loop_n world job err now execk fuel s k
+  end.
+Print Assumptions loop_counter.
+
 (* ================= model B: the instruction budget ================= *)
 
 (* for EVERY budget (0 included) and every fuel, the budgeted evaluator returns the same completion and
@@ -231,24 +254,24 @@ Check budget0_yields_every_step : forall (st result opcode : Type) (fetch : st -
 Print Assumptions budget0_yields_every_step.
 
 (* the COST table as it is in the source now (finite: 256 entries, decided by computation): every opcode
-   byte is listed, every opcode that is not a `=> Reserved` mapping costs between 1 and table_max = 15,
-   the reserved ones cost 0 (their operation is unreachable!()), and every opcode that jumps, calls,
-   returns, awaits or yields is among the paying ones.  Hence no executable cycle is free: a loop cannot run
-   forever without the evaluator yielding. *)
+   byte is listed, every opcode that is not a `=> Reserved` mapping costs between 1 and table_max (the
+   largest COST in the table, whatever it currently is; a u8), the reserved ones cost 0 (their operation is
+   unreachable!()), and every opcode that jumps, calls, returns, awaits or yields is among the paying ones.
+   Hence no executable cycle is free: a loop cannot run forever without the evaluator yielding. *)
 Theorem opcode_costs :
   List.length OPCODE_TABLE = 256 /\
   (forall op, table_reserved op = false -> 1 <= table_cost op <= table_max) /\
-  table_max = 15 /\
+  table_max <= 255 /\
   all_reserved_cost_zero = true /\ RESERVED_STRUCT_COST = 0 /\
   back_edges_cost_positive = true.
 Proof.
-  exact (conj table_256 (conj table_cost_bounds (conj table_max_value
+  exact (conj table_256 (conj table_cost_bounds (conj table_max_u8
         (conj (proj1 table_reserved_zero) (conj (proj2 table_reserved_zero) back_edges_positive))))).
 Qed.
 Check opcode_costs :
   List.length OPCODE_TABLE = 256 /\
   (forall op, table_reserved op = false -> 1 <= table_cost op <= table_max) /\
-  table_max = 15 /\
+  table_max <= 255 /\
   all_reserved_cost_zero = true /\ RESERVED_STRUCT_COST = 0 /\
   back_edges_cost_positive = true.
 Print Assumptions opcode_costs.
